@@ -341,6 +341,11 @@ func (c *compiler) compileExpList(exps []ast.ExpNode, dstRegs []ir.Register) {
 		c.TakeRegister(dst)
 		dstRegs[i] = dst
 	}
+	// Surplus expressions are still evaluated, after the others and in order,
+	// for their side effects; their values are discarded.
+	for i := commonCount; i < len(exps) && !doTailExp; i++ {
+		c.compileExpInto(exps[i], c.GetFreeRegister())
+	}
 	for i := commonCount; i < len(dstRegs); i++ {
 		dst := c.GetFreeRegister()
 		c.TakeRegister(dst)
